@@ -1,4 +1,5 @@
 import AlgoVerif.Model.C10
+import AlgoVerif.Model.C10Ext
 import AlgoVerif.Model.C08
 /-!
 Line-protocol component for C10 and C12 (shared; `Driver/C12.lean` delegates here).
@@ -19,8 +20,24 @@ table               -> ok conflicts=[A/a …] cells=[A/a:{p|q} A/$:sync …]
 parse a b c         -> ok accept p₁; p₂; … | ok reject terminal|noentry|trailing | ok table-error
 ast a b c           -> ok <tree> yield=[a b c]   | as parse
 unchanged           -> ok true                       (the caller's grammar still equals its clone)
+verify              -> ok valid | ok invalid [head:Z; no-prod:A; nonterm:Y; start; start-prod; term:z]
+                       (the errors `Verify()` collects, as a sorted multiset)
+tryfirst X Y …      -> as first, but a panic of the closure is caught: ok panicked  (the case goes on; the
+                       memo table of the closure keeps the partial value, which a later `first X Y …` returns)
+cell A a            -> ok empty=true|false sync=true|false prod=-|A→α     (IsEmpty, IsSync, GetProduction; `$` = endmarker)
+parse0 a b c        -> ok accept | ok reject … | ok table-error           (Parse with nil callbacks)
+parsef L T P : a b  -> ok accept [e₁; …] | ok reject <why> [e₁; …] | ok fail lexer|token@j|prod [e₁; …] | ok table-error
+                       (L: the NextToken call that fails with an error other than EOF, T: the position of the token
+                        whose callback returns an error, P: the number of the production callback that does; `-` = never;
+                        eᵢ: the callbacks that returned nil, `a@0` for a token, `A→α` for a production)
+astf L : a b        -> as ast | ok fail lexer
 ```
-On a grammar that fails `Verify()` every query answers `ok invalid`.
+On a grammar that fails `Verify()` every query (except `verify`, `unchanged`) answers `ok invalid`; written with a leading
+`!` (`!table`, `!parse a`, …) the query is run all the same, and the answer is `panic` where the Go code dereferences the nil
+answer of a table that has no entry for an undeclared symbol.
+
+Symbols by name: a body word is a non-terminal iff it is listed in `nonterms`; `^Z` is the non-terminal `Z` whether declared or
+not; a terminal called like a declared non-terminal is written `'S` everywhere (for the Model `'S` is just its name).
 -/
 namespace AlgoVerif.C10.Driver
 open AlgoVerif AlgoVerif.Gram AlgoVerif.C10
@@ -34,7 +51,10 @@ def colName : Option String → String
   | none => "$"
 
 def toSym (g : SGrammar) (w : String) : SSym :=
-  if g.nonterms.contains w then Sym.nonterm w else Sym.term w
+  if g.nonterms.contains w then Sym.nonterm w else
+  match w.toList with
+  | '^' :: r => Sym.nonterm (String.ofList r)
+  | _ => Sym.term w
 
 /-- `NewCFG`: the three components are sets -/
 def normalise (g : SGrammar) : SGrammar :=
@@ -46,6 +66,34 @@ def showLL1Err : LL1Err String String → String
     let b := showBody β
     if a < b then s!"ff {A}: {a} | {b}" else s!"ff {A}: {b} | {a}"
   | .epsFollow A e o => s!"ef {A}: eps={showBody e} other={showBody o}"
+
+/-- sort, keeping duplicates -/
+def insertKeep (x : String) : List String → List String
+  | [] => [x]
+  | y :: ys => if x < y then x :: y :: ys else y :: insertKeep x ys
+
+def sortKeep (l : List String) : List String := l.foldl (fun acc x => insertKeep x acc) []
+
+def showVerifyErr : VerifyErr String String → String
+  | .startUndeclared => "start"
+  | .noStartProd => "start-prod"
+  | .noProd n => "no-prod:" ++ n
+  | .headUndeclared n => "head:" ++ n
+  | .termUndeclared t => "term:" ++ t
+  | .nontermUndeclared n => "nonterm:" ++ n
+
+def showVerify (g : SGrammar) : String :=
+  match verifyErrors g with
+  | [] => "ok valid"
+  | es => s!"ok invalid [{"; ".intercalate (sortKeep (es.map showVerifyErr))}]"
+
+/-- `^Z`: the non-terminal `Z`, declared or not -/
+def caret (s : SSym) : SSym :=
+  match s with
+  | .term w => (match w.toList with
+    | '^' :: r => .nonterm (String.ofList r)
+    | _ => s)
+  | .nonterm _ => s
 
 /-- the rows in the order `OrderNonTerminals` returns them (`Model/C08.lean: orderNT`) -/
 def tableRows (g : SGrammar) : List String :=
@@ -95,62 +143,158 @@ def showOutcome {α : Type} (f : α → String) : Outcome α → String
   | .panic => "panic"
   | .diverge => "hang"
 
-def runQuery (g : SGrammar) (valid : Bool) (an : Outcome (Analysis String String)) (line : String) : String :=
+def showEvent : Event String String → String
+  | .tok t pos => s!"{t}@{pos}"
+  | .prod p => prodKey p
+
+def showEvents (es : List (Event String String)) : String := "[" ++ "; ".intercalate (es.map showEvent) ++ "]"
+
+def showEnding : Ending → String
+  | .accept => "accept"
+  | .reject why => "reject " ++ showReject why
+  | .fail .lexer => "fail lexer"
+  | .fail (.token pos) => s!"fail token@{pos}"
+  | .fail .prod => "fail prod"
+
+/-- `-` = never, otherwise a number -/
+def faultArg (s : String) : Option Nat := if s = "-" then none else s.toNat?
+
+def showTE (f : TE String) : String := s!"ok {showSet f.terms} eps={showBool f.eps}"
+
+/-- state of the driver between two description lines -/
+structure St where
+  g : SGrammar
+  valid : Bool
+  /-- FIRST as the Go code computes it (`panic` where it dereferences nil) -/
+  fi : Outcome (String → TE String)
+  /-- FIRST and FOLLOW -/
+  an : Outcome (Analysis String String)
+  /-- the memo table of the FIRST closure the `first` queries go to -/
+  memo : FirstMemo String String
+
+def mkSt (raw : SGrammar) : St :=
+  let g := normalise raw
+  let valid := validB g
+  let an := if valid then analyse g IterOrder.canon IterOrder.canon else analyseP g IterOrder.canon IterOrder.canon
+  { g := g, valid := valid, memo := [], an := an,
+    fi := if valid then an.map (·.first) else computeFirstP g IterOrder.canon }
+
+def runQuery (st : St) (line : String) : String × St :=
+  let g := st.g
   let o : IterOrder String String := IterOrder.canon
   match words line with
-  | ["unchanged"] => "ok true"
-  | cmd :: args =>
-    if !valid then "ok invalid" else
+  | ["unchanged"] => ("ok true", st)
+  | ["verify"] => (showVerify g, st)
+  | cmd0 :: args =>
+    let forced := cmd0.startsWith "!"
+    let cmd := if forced then (cmd0.drop 1).toString else cmd0
+    if !st.valid && !forced then ("ok invalid", st) else
+    let an := st.an
     match cmd, args with
-    | "nullable", [] => showOutcome (fun l => "ok " ++ showSet l) (nullable g o)
+    | "nullable", [] =>
+      (showOutcome (fun l => "ok " ++ showSet l) (if st.valid then nullable g o else nullableP g o), st)
     | "first", xs =>
-      showOutcome id (an.bind fun an =>
-        (firstStrO g an.first (xs.map (toSym g)) []).map fun f => s!"ok {showSet f.terms} eps={showBool f.eps}")
+      match st.fi with
+      | .ok fi =>
+        let r := firstCall g fi st.memo (xs.map (toSym g))
+        (showOutcome showTE r.1, { st with memo := r.2 })
+      | .panic => ("panic", st)
+      | .diverge => ("hang", st)
+    | "tryfirst", xs =>
+      match st.fi with
+      | .ok fi =>
+        let r := firstCall g fi st.memo (xs.map (toSym g))
+        ((match r.1 with
+          | .ok f => showTE f
+          | .panic => "ok panicked"
+          | .diverge => "hang"), { st with memo := r.2 })
+      | .panic => ("panic", st)
+      | .diverge => ("hang", st)
     | "follow", [A] =>
-      showOutcome id (an.bind fun an =>
+      (showOutcome id (an.bind fun an =>
+        let A := match A.toList with
+          | '^' :: r => String.ofList r
+          | _ => A
         if g.nonterms.contains A then
           let f := an.follow A
           Outcome.ok s!"ok {showSet f.terms} end={showBool f.endm}"
-        else Outcome.panic)
+        else Outcome.panic), st)
     | "ll1", [] =>
-      showOutcome id (an.map fun an =>
+      (showOutcome id (an.map fun an =>
         let errs := ll1Errors g (firstStr an.first) an.follow
         if errs.isEmpty then "ok true"
-        else s!"ok false [{"; ".intercalate (sortDedup (errs.map showLL1Err))}]")
-    | "table", [] => showOutcome id (an.map fun an => showTable g an)
+        else s!"ok false [{"; ".intercalate (sortDedup (errs.map showLL1Err))}]"), st)
+    | "table", [] => (showOutcome id (an.map fun an => showTable g an), st)
+    | "cell", [A, a] =>
+      (showOutcome id (an.map fun an =>
+        let t := buildTable (firstStr an.first) an.follow g.prods (tableRows g)
+        let c := cellInfo t A (if a = "$" then none else some a)
+        s!"ok empty={showBool c.1} sync={showBool c.2.1} prod={match c.2.2 with
+          | some p => prodKey p
+          | none => "-"}"), st)
     | "parse", w =>
-      showOutcome id (an.bind fun an =>
+      (showOutcome id (an.bind fun an =>
         (parseWith g an parseFuel w).map fun r =>
           match r with
           | .tableError => "ok table-error"
           | .done (.reject why) => "ok reject " ++ showReject why
-          | .done (.accept evs) => ("ok accept " ++ "; ".intercalate ((prodsOf evs).map prodKey)))
+          | .done (.accept evs) => ("ok accept " ++ "; ".intercalate ((prodsOf evs).map prodKey))), st)
+    | "parse0", w =>
+      (showOutcome id (an.bind fun an =>
+        (parseWith g an parseFuel w).map fun r =>
+          match r with
+          | .tableError => "ok table-error"
+          | .done (.reject why) => "ok reject " ++ showReject why
+          | .done (.accept _) => "ok accept"), st)
+    | "parsef", l :: t :: p :: ":" :: w =>
+      (showOutcome id (an.bind fun an =>
+        (parseWithF g an (faultArg l) (faultArg t) (faultArg p) parseFuel w).map fun r =>
+          match r with
+          | .tableError => "ok table-error"
+          | .done evs e => s!"ok {showEnding e} {showEvents evs}"), st)
+    | "astf", l :: ":" :: w =>
+      (showOutcome id (an.bind fun an =>
+        (parseWithF g an (faultArg l) none none parseFuel w).bind fun r =>
+          match r with
+          | .tableError => Outcome.ok "ok table-error"
+          | .done evs .accept =>
+            (buildASTStack g.start evs).map fun t =>
+              s!"ok {showTree t} yield=[{" ".intercalate t.yield}]"
+          | .done _ e => Outcome.ok ("ok " ++ showEnding e)), st)
     | "ast", w =>
-      showOutcome id (an.bind fun an =>
+      (showOutcome id (an.bind fun an =>
         (parseWith g an parseFuel w).bind fun r =>
           match r with
           | .tableError => Outcome.ok "ok table-error"
           | .done (.reject why) => Outcome.ok ("ok reject " ++ showReject why)
           | .done (.accept evs) =>
             (buildASTStack g.start evs).map fun t =>
-              s!"ok {showTree t} yield=[{" ".intercalate t.yield}]")
-    | _, _ => "bad-op"
-  | [] => "bad-op"
+              s!"ok {showTree t} yield=[{" ".intercalate t.yield}]"), st)
+    | _, _ => ("bad-op", st)
+  | [] => ("bad-op", st)
 
 /-- `unprod H : body` -/
 def parseUnprod (g : SGrammar) (line : String) : Option SProd :=
   match words line with
-  | "unprod" :: h :: ":" :: body =>
-    some { head := h, body := body.map fun w => if g.nonterms.contains w then Sym.nonterm w else Sym.term w }
+  | "unprod" :: h :: ":" :: body => some { head := h, body := body.map (toSym g) }
   | _ => none
+
+/-- `parseGrammarLine`, then `^Z` words of the bodies become non-terminals -/
+def parseDesc (g : SGrammar) (line : String) : SGrammar × Bool :=
+  let r := parseGrammarLine g line
+  ({ r.1 with prods := r.1.prods.map fun p => { p with body := p.body.map caret } }, r.2)
 
 def runCase (_hdr : List String) (ops : List String) : List String := Id.run do
   let mut raw : SGrammar := SGrammar.empty
   -- the normalised grammar with its validity and analyses, recomputed after a description line
-  let mut cur : Option (SGrammar × Bool × Outcome (Analysis String String)) := none
+  let mut cur : Option St := none
   let mut out : Array String := #[]
+  let mut dead := false
   for l in ops do
-    let (raw', isDesc) := parseGrammarLine raw l
+    if dead then
+      out := out.push "skip"
+    else
+    let (raw', isDesc) := parseDesc raw l
     if isDesc then
       raw := raw'
       cur := none
@@ -164,12 +308,11 @@ def runCase (_hdr : List String) (ops : List String) : List String := Id.run do
       | none =>
         let st := match cur with
           | some st => st
-          | none =>
-            let g := normalise raw
-            let valid := validB g
-            (g, valid, if valid then analyse g IterOrder.canon IterOrder.canon else Outcome.panic)
-        cur := some st
-        out := out.push (runQuery st.1 st.2.1 st.2.2 l)
+          | none => mkSt raw
+        let r := runQuery st l
+        cur := some r.2
+        out := out.push r.1
+        if r.1 = "panic" || r.1 = "hang" then dead := true
   return out.toList
 
 end AlgoVerif.C10.Driver
